@@ -204,13 +204,19 @@ def bounded(pb, interp, rng, tier):
     sig = pb.Signal(np.arange(8.).reshape(4, 2) + 1, sample_rate=1 * u.Hz, meta={"who": "sig"})
     for qname, q in (("Angle", Angle(0.25, u.cycle)), ("Phase", Phase(3.0, 0.25))):
         for oname, fn, rf in ((f"{qname} * sig", lambda: q * sig, lambda: q * sig.data), (f"sig * {qname}", lambda: sig * q, lambda: sig.data * q),
-                              (f"np.multiply({qname}, sig)", lambda: np.multiply(q, sig), lambda: np.multiply(q, sig.data))):
+                              (f"np.multiply({qname}, sig)", lambda: np.multiply(q, sig), lambda: np.multiply(q, sig.data)),
+                              (f"{qname} < sig", lambda: q < sig, lambda: q < sig.data), (f"{qname} == sig", lambda: q == sig, lambda: q == sig.data),
+                              (f"{qname} >= sig", lambda: q >= sig, lambda: q >= sig.data), (f"sig > {qname}", lambda: sig > q, lambda: sig.data > q),
+                              (f"np.less({qname}, sig)", lambda: np.less(q, sig), lambda: np.less(q, sig.data)),
+                              (f"np.not_equal({qname}, sig)", lambda: np.not_equal(q, sig), lambda: np.not_equal(q, sig.data))):
             ev += 1
             distinct.add(("quantity-subclass", oname))
             try:
                 ref = rf()
             except Exception:
                 continue
+            if not isinstance(ref, np.ndarray):
+                continue        # astropy's Quantity.__eq__ answers incompatible units with a bare False without calling the ufunc
             try:
                 r = fn()
             except Exception as e:
